@@ -1389,7 +1389,6 @@ func codecHexLimit(b []byte, limit int) string {
 	return hex.EncodeToString(b)
 }
 
-
 // ---- reporters used the way periodic reporting uses them ------------------------------------
 
 // partialWriter accepts limit bytes, then fails every Write (having accepted what still fitted).
